@@ -420,6 +420,13 @@ pub fn worker_main(ctx: &Ctx, a: WorkerArgs) -> i32 {
             // unmodified base itself always runs) - spreads a slow build's share over many bases and workers
             let sub_sample: u64 = std::env::var("ASEMON_SUB_SAMPLE").ok().and_then(|x| x.parse().ok()).unwrap_or(1).max(1);
             while b < total {
+                // building the inputs of a base can take minutes (one thorough base deflates 4 GiB): say so, the
+                // supervisor's stall watchdog is for the library, not for the harness
+                {
+                    let mut o = out.lock();
+                    let _ = writeln!(o, "G {}", b);
+                    let _ = o.flush();
+                }
                 let inputs = inputs_of_base(&plan, b, &corpus);
                 let start = if first_base { a.resume_sub } else { 0 };
                 first_base = false;
@@ -567,9 +574,10 @@ fn run_stripe(ctx: &Ctx, cfg: &SupervisorCfg, k: u64, corpus: &[(String, Vec<u8>
         let activity = std::sync::Arc::new(std::sync::atomic::AtomicU64::new(0));
         let done = std::sync::Arc::new(std::sync::atomic::AtomicBool::new(false));
         let killed = std::sync::Arc::new(std::sync::atomic::AtomicBool::new(false));
+        let generating = std::sync::Arc::new(std::sync::atomic::AtomicBool::new(true));
         let pid = child.id() as i32;
         let wd = {
-            let (activity, done, killed) = (activity.clone(), done.clone(), killed.clone());
+            let (activity, done, killed, generating) = (activity.clone(), done.clone(), killed.clone(), generating.clone());
             let stall = cfg.stall_secs.max(5);
             std::thread::spawn(move || {
                 let mut last = 0u64;
@@ -582,7 +590,8 @@ fn run_stripe(ctx: &Ctx, cfg: &SupervisorCfg, k: u64, corpus: &[(String, Vec<u8>
                         idle = 0;
                     } else {
                         idle += 1;
-                        if idle >= stall * 2 {
+                        // (while the worker builds the inputs of its next base nothing of the library runs: ten times the patience)
+                        if idle >= stall * 2 * if generating.load(std::sync::atomic::Ordering::Relaxed) { 10 } else { 1 } {
                             killed.store(true, std::sync::atomic::Ordering::Relaxed);
                             unsafe {
                                 libc::kill(pid, libc::SIGKILL);
@@ -605,7 +614,12 @@ fn run_stripe(ctx: &Ctx, cfg: &SupervisorCfg, k: u64, corpus: &[(String, Vec<u8>
             activity.fetch_add(1, std::sync::atomic::Ordering::Relaxed);
             let mut it = line.splitn(4, ' ');
             match it.next() {
+                Some("G") => {
+                    cur_base = it.next().and_then(|x| x.parse().ok()).unwrap_or(cur_base);
+                    generating.store(true, std::sync::atomic::Ordering::Relaxed);
+                }
                 Some("B") => {
+                    generating.store(false, std::sync::atomic::Ordering::Relaxed);
                     let b: u64 = it.next().and_then(|x| x.parse().ok()).unwrap_or(0);
                     let s: u64 = it.next().and_then(|x| x.parse().ok()).unwrap_or(0);
                     last_begin = Some((b, s));
@@ -699,15 +713,17 @@ fn run_stripe(ctx: &Ctx, cfg: &SupervisorCfg, k: u64, corpus: &[(String, Vec<u8>
         // A SIGKILL that the supervisor did not send comes from outside (the kernel's out-of-memory killer picking a
         // victim while other processes fill the machine): the worker itself runs under an address-space limit and
         // fails with an abort, never with SIGKILL. Such a death says nothing about the input - the same input (or the
-        // same base, when the worker was between inputs) is given to a fresh worker, twice at most; a death that
+        // same base, when the worker was between inputs) is given to a fresh worker, three times at most and after a
+        // growing pause; a death that
         // repeats is then judged like any other.
         if sig == Some(libc::SIGKILL) && !was_killed {
             let key = last_begin.unwrap_or((cur_base, u64::MAX));
             let n = outside_kills.entry(key).or_insert(0u32);
             *n += 1;
-            if *n <= 2 {
+            if *n <= 3 {
                 res.summary.counters.entry("workers_killed_from_outside_and_restarted".into()).and_modify(|c| *c += 1).or_insert(1);
-                std::thread::sleep(std::time::Duration::from_secs(2 * *n as u64));
+                // whatever filled the machine needs time to finish: 15 s, 45 s, 2 min
+                std::thread::sleep(std::time::Duration::from_secs([15u64, 45, 120][(*n as usize - 1).min(2)]));
                 match last_begin {
                     Some((b, sub)) => {
                         first = b;
